@@ -130,6 +130,34 @@ func c01Case(w *rt.W, st *c01State, y int64, m, d int, slow bool) {
 		if string(o2) != "2021-03-14 a-b "+wantB {
 			c01Fail(w, "out-formatter-spare-capacity", y, m, d, "DefaultFormatter(\"2021-03-14 a-b \" with spare capacity,FormatBasic)", string(o2), "2021-03-14 a-b "+wantB)
 		}
+		// room to spare that is almost, just or not quite enough for this text: every spare capacity 0..19 comes up as
+		// the dates go by (a writer that sizes its buffer for the usual ten bytes meets the longer years here)
+		{
+			sp := int((y%1000003+1000003)%1000003+int64(m)*7+int64(d)*3) % 20
+			pre := "p-9|"[:(sp*3)%5]
+			for _, f := range []date.Format{0, date.FormatBasic} {
+				want := wantE
+				if f == date.FormatBasic {
+					want = wantB
+				}
+				buf := append(make([]byte, 0, len(pre)+sp), pre...)
+				o3, _ := date.DefaultFormatter(buf, dt, f)
+				w.Eval(1)
+				if string(o3) != pre+want || string(buf) != pre {
+					c01Fail(w, "out-formatter-tight-capacity", y, m, d, fmt.Sprintf("DefaultFormatter(%q with %d bytes to spare,%d)", pre, sp, f), string(o3), pre+want)
+				}
+			}
+			switch {
+			case sp >= 10 && sp < len(wantE):
+				w.ClassN("formatter-capacity-at-least-ten-but-short-of-the-text", 1)
+			case sp == len(wantE) || sp == len(wantB):
+				w.ClassN("formatter-capacity-exactly-the-text", 1)
+			case sp < 10:
+				w.ClassN("formatter-capacity-below-ten", 1)
+			default:
+				w.ClassN("formatter-capacity-more-than-the-text", 1)
+			}
+		}
 		// the text sits inside a larger record: the bytes after it belong to the caller
 		rec := append(append(make([]byte, 0, 64), wantE...), "|NEXT-FIELD"...)
 		g, err := date.DefaultParser(rec[:len(wantE)], 0)
@@ -663,5 +691,7 @@ func runC01(c *rt.Ctx) {
 		c.Require(cl, 1)
 	}
 	c.Require("leap-day", 2425)
+	c.Require("formatter-capacity-at-least-ten-but-short-of-the-text", 1000)
+	c.Require("formatter-capacity-exactly-the-text", 1000)
 	c.Require("container-level-alternative-spellings", 1000)
 }
